@@ -678,6 +678,13 @@ P("enforce_map_overlap_align_name", lambda t: t.df.map_overlap(_unnamed_rolling_
 P("enforce_map_overlap_align_name_default", lambda t: t.df.map_overlap(_unnamed_rolling_plus, 1, 0, t.df2, align_dataframes=True, meta=("res", "f8")) if t.lazy else t.df.u, dask_only=True, needs_known=True, needs_range=True, tags={"enforce_meta", "window"})
 
 
+# predicates that reach the NEW index of set_index through a derived object (a column's index, a sub-frame's index)
+P("vc_set_index_filter_derived_index", lambda t: (lambda x: x[(x.a.index.to_series() >= 9) & (x.f > 0)])(t.df.set_index("u") if t.lazy else t.df.set_index("u").sort_index(kind="stable")), tags={"valuechange", "sort"})
+P("vc_set_index_filter_subframe_index", lambda t: (lambda x: x[x[["a", "f"]].index.to_series() < 15])(t.df.set_index("u") if t.lazy else t.df.set_index("u").sort_index(kind="stable")), tags={"valuechange", "sort"})
+P("vc_set_index_filter_direct_index", lambda t: (lambda x: x[x.index.to_series() >= 9])(t.df.set_index("u") if t.lazy else t.df.set_index("u").sort_index(kind="stable")), tags={"valuechange", "sort"})
+P("vc_sort_filter_index", lambda t: (lambda x: x[x.a.index.to_series() != x.a.index.to_series().min()])(t.df.sort_values("f")), tags={"valuechange", "sort"}, order_free=True)
+
+
 def program_names(tags_exclude=()):
     return [n for n, p in PROGRAMS.items() if not (p.tags & set(tags_exclude))]
 
